@@ -18,7 +18,9 @@
 //! Non-trivial: the plan has ≥ 3 executed nodes, some batch with ≥ 1 row was checked, and some node declares a
 //! non-nullable column or the plan contains a cast/aggregate/window/join (a non-trivially typed expression).
 //!
-//! Not judged: run-time errors of a node (division by zero, cast overflow: C01/C20), planning failures (discard).
+//! A node whose execution fails with arrow's "declared as non-nullable but contains null values" is a violation too
+//! (the operator tried to emit a batch that breaks its own declaration and arrow's `RecordBatch::try_new` refused).
+//! Not judged: other run-time errors of a node (division by zero, cast overflow: C01/C20), planning failures (discard).
 //!
 //! Sensitivity probes: see the end of this header.
 use datafusion::arrow::array::{Array, ArrayRef, AsArray};
@@ -72,7 +74,17 @@ pub struct Facts {
 }
 
 fn check_node(n: &walk::WalkNode, f: &mut Facts) -> Result<(), String> {
-    let Ok(parts) = &n.parts else { return Ok(()) };
+    let parts = match &n.parts {
+        Ok(p) => p,
+        Err(e) => {
+            // arrow refuses to build a batch that holds a NULL in a column its schema declares non-nullable: the operator's
+            // run-time error IS the observation of a batch that does not conform to the declared schema
+            if e.message.contains("declared as non-nullable but contains null values") {
+                return Err(format!("node [{}] {} fails while emitting a batch that violates its declared schema: {}", n.path, n.display, e.message));
+            }
+            return Ok(());
+        }
+    };
     f.nodes += 1;
     let schema = n.plan.schema();
     f.nonnull_fields += schema.fields().iter().filter(|x| !x.is_nullable()).count();
